@@ -544,7 +544,14 @@ pub fn mutate(t: &mut Tape, d: &Dict) -> String {
 /// shapes aimed at specific branches read in the code
 pub fn shape(t: &mut Tape, d: &Dict) -> String {
     let n = 1 + t.pick(240);
-    match t.pick(31) {
+    match t.pick(32) {
+        31 => {
+            // sums of substances (elements share molar_mass) with amounts of every kind
+            let el = ["hydrogen", "oxygen", "carbon", "iron", "H", "O", "Fe", "water", "NaCl", "CH4"];
+            let am = ["", "2 ", "(2 m) ", "(3 s) ", "3 mol ", "2 kg ", "(1|3) ", "0 ", "-1 ", "(2 m/s) ", "1e30 "];
+            let n = 2 + t.pick(3);
+            (0..n).map(|_| format!("{}{}", t.choose(&am), t.choose(&el))).collect::<Vec<_>>().join(t.choose(&[" + ", " + ", " - ", " * ", " / "]))
+        }
         28 => {
             // towers of integer powers on a unit: the dimension exponents multiply
             let k = 2 + t.pick(5);
